@@ -41,6 +41,7 @@ def gp_component(flavor, sysmb, fault_budget=0, sig_threads=(), sig_budget=0, fu
         defines.append("GP_GENERIC_FUTEX"); name += "_compat"
     if sig_threads:
         env["VRT_SIGS"] = sig_budget
+        env["GP_SIG_THREADS"] = ",".join(sig_threads)      # the driver lets the handler interrupt only these threads (= SigThreads of the spec)
         if sig_futex:
             env["VRT_SIG_FUTEX"] = 1; name += "fx"
     return {
